@@ -345,6 +345,7 @@ func (w *wWorld) buildOps(nDIDs, nOps, nClients int) {
 			spec.Type = operation.TypeCreate
 			spec.NextUpdate, spec.NextRecovery = d.upd, d.rec
 			spec.AnchorOrigin = originValue(mark)
+			spec.SuffixType = []string{"", "", "ipdb", "vdr"}[mark%4]
 			spec.Patches, _ = workload.ToPatches([]workload.PatchDesc{{Kind: workload.AddKey, IDs: []string{"k1"}, Mark: fmt.Sprintf("m%d", mark)}})
 			dids = append(dids, d)
 		} else {
